@@ -35,7 +35,7 @@ use refmodel::sql::expr::{self as ex, Expr};
 use refmodel::sql::query::{From, JoinKind, Query, SelectItem, Table};
 use refmodel::sql::{Database as MDb, Ty};
 use refmodel::val::{bag, show_rows, Row, V};
-use std::collections::{BTreeMap, BTreeSet};
+use std::collections::BTreeSet;
 use std::path::{Path, PathBuf};
 use vcore::{json, Check, Ctx, Reporter, Spec, Value};
 
@@ -899,7 +899,13 @@ fn run_db(pass: &str, ctx: &Ctx, rep: &mut Reporter, t: &Tabs, v: Variant, prep:
             }
         }
         let mut failed: BTreeSet<QSpec> = BTreeSet::new();
+        // quick tier, pairs pass: queries with a WHERE clause run under one budget per class (default, 4096, 0);
+        // queries without WHERE (and everything in the thorough tier) run under all six
+        let reduced_budget = ctx.quick() && pass == "pairs" && matches!(b, Some(65536) | Some(256) | Some(1));
         for (qi, p) in prep.iter().enumerate() {
+            if reduced_budget && p.spec.wh != Wh::None {
+                continue;
+            }
             if let Some(base) = p.spec.base() {
                 if failed.contains(&base) {
                     failed.insert(p.spec.clone());
@@ -1248,9 +1254,7 @@ fn pass_pad(ctx: &Ctx, rep: &mut Reporter, case_no: &mut u64) {
             eprintln!("pad: model prepared in {:?}", t0.elapsed());
         }
         rep.begin_case(&case_json("pad", &t, v, &specs[0], None, "model", "").to_string());
-        let before = rep.evaluations();
         run_db("pad", ctx, rep, &t, v, &prep, &BUDGETS, true);
-        let _ = before;
         rep.note("pass pad: counter sql_join_files_created_during_query = directory entries created in TMPDIR, the scratch root and the database directory while a 300-row padded join runs under each budget. When it is 0 the SQL join path did not spill under any budget (at the commit this check was written for, PRAGMA join_memory_budget is stored by src/database/pragma.rs:145-162 and read by nothing; joins are materialised in memory by src/database/database.rs:2112-3460); the spilling operator GraceHashJoinState is then covered by pass op only (op_spill_files_seen).");
         if ctx.opt("timing").is_some() {
             eprintln!("pad: variant {} done at {:?}", v.name(), t0.elapsed());
@@ -1498,9 +1502,10 @@ mod oppass {
 }
 
 fn pass_op(ctx: &Ctx, rep: &mut Reporter, case_no: &mut u64) {
-    let tables = multisets_upto(&DOM4, 3);
-    let specs = oppass::all_specs();
-    rep.bound("op.operators", json!(["NestedLoopJoinState x {INNER,LEFT,RIGHT,FULL} x {eq,lt,eq+conj} + CROSS", "StreamingHashJoinState x 4 kinds (swapped=false)", "GraceHashJoinState x 4 kinds x {in-memory, spill dir with budget 65536,4096,256,1,0}"]));
+    // quick: tables of <= 2 rows and spill budgets {65536, 256, 0}; thorough: <= 3 rows and all five budgets
+    let tables = multisets_upto(&DOM4, if ctx.quick() { 2 } else { 3 });
+    let specs: Vec<oppass::OpSpec> = oppass::all_specs().into_iter().filter(|s| !ctx.quick() || !matches!(s.spill, Some(4096) | Some(1))).collect();
+    rep.bound("op.operators", json!(["NestedLoopJoinState x {INNER,LEFT,RIGHT,FULL} x {eq,lt,eq+conj} + CROSS", "StreamingHashJoinState x 4 kinds (swapped=false)", "GraceHashJoinState x 4 kinds x {in-memory, spill dir with budget 65536,4096,256,1,0 (quick: 65536,256,0)}"]));
     rep.bound("op.table_pairs", json!(tables.len() * tables.len()));
     rep.expect_nonzero("op_spill_files_seen");
     rep.expect_nonzero("op_conforming");
@@ -1563,7 +1568,7 @@ impl Check for C17 {
         let mut s = Spec::new(
             PROP,
             "exploration",
-            "Pass pairs: every ordered pair of tables l(k,x), r(k,y) whose key columns are the multisets of <= 3 values over {NULL,1,2,3} (thorough: both insertion orders, 4-row tables against every <= 2-row table and against 3-/4-row tables over {NULL,1,2}), payload unique per row; x physical variants (no index, secondary index on r.k, PRIMARY KEY r.k where the keys allow it; thorough: index on l.k); x every query of the grammar {INNER,LEFT,RIGHT,FULL} x ON {l.k=r.k, l.k<r.k, l.k<=r.k, l.k=r.k OR false, eq AND r.y>c, eq AND l.x>c; thorough: r.k=l.k} and WHERE {none, 1=1, l.x>c, r.y>c, l.k IS NULL, r.k IS NULL, l.k=1, r.k=1} (quick: the WHEREs with ON in {eq, lt, eq AND r.y>c}), CROSS and comma joins with the same WHEREs and with the join predicate in WHERE, semi/anti joins (IN, EXISTS, NOT EXISTS), aliased / self-join / SELECT * forms; x PRAGMA join_memory_budget in {default,65536,4096,256,1,0}. Pass chain: all triples of tables over {NULL,1,2} (<= 2 rows, thorough <= 3) x all 25 kind pairs of (l J1 r) J2 m x second ON on r.k or l.k x WHERE {none, m.z>c, m.k IS NULL} x budgets (quick: default,4096,0). Pass pad: 300-row tables with 400-byte payloads, 13 equi-join queries under every budget, files created during the query are counted. Pass op: the executor join operators driven directly on all table pairs (NestedLoopJoin 5 kinds x 4 conditions, StreamingHashJoin, GraceHashJoin in memory and with real spill files under 5 budgets) and on the padded tables. One case = one (tables, variant, budget, query) execution compared as a bag with the reference model; non-trivial = the expected bag is non-empty. Queries whose simpler base query already fails on the same tables are pruned and counted.",
+            "Pass pairs: every ordered pair of tables l(k,x), r(k,y) whose key columns are the multisets of <= 3 values over {NULL,1,2,3} (thorough: both insertion orders, 4-row tables against every <= 2-row table and against 3-/4-row tables over {NULL,1,2}), payload unique per row; x physical variants (no index, secondary index on r.k, PRIMARY KEY r.k where the keys allow it; thorough: index on l.k); x every query of the grammar {INNER,LEFT,RIGHT,FULL} x ON {l.k=r.k, l.k<r.k, l.k<=r.k, l.k=r.k OR false, eq AND r.y>c, eq AND l.x>c; thorough: r.k=l.k} and WHERE {none, 1=1, l.x>c, r.y>c, l.k IS NULL, r.k IS NULL, l.k=1, r.k=1} (quick: the WHEREs with ON in {eq, lt, eq AND r.y>c}), CROSS and comma joins with the same WHEREs and with the join predicate in WHERE, semi/anti joins (IN, EXISTS, NOT EXISTS), aliased / self-join / SELECT * forms; x PRAGMA join_memory_budget in {default,65536,4096,256,1,0} (quick: queries with a WHERE clause under default,4096,0 only). Pass chain: all triples of tables over {NULL,1,2} (<= 2 rows, thorough <= 3) x all 25 kind pairs of (l J1 r) J2 m x second ON on r.k or l.k x WHERE {none, m.z>c, m.k IS NULL} x budgets (quick: default,4096,0). Pass pad: 300-row tables with 400-byte payloads, 13 equi-join queries under every budget, files created during the query are counted. Pass op: the executor join operators driven directly on all table pairs (quick: tables of <= 2 rows; NestedLoopJoin 5 kinds x 4 conditions, StreamingHashJoin, GraceHashJoin in memory and with real spill files under 5 budgets) and on the padded tables. One case = one (tables, variant, budget, query) execution compared as a bag with the reference model; non-trivial = the expected bag is non-empty. Queries whose simpler base query already fails on the same tables are pruned and counted.",
         );
         s.cap_quick_s = 90;
         s.cap_thorough_s = 1500;
@@ -1646,6 +1651,3 @@ fn main() {
     }
     vcore::main(&C17)
 }
-
-#[allow(dead_code)]
-fn _unused(_: BTreeMap<u8, u8>) {}
